@@ -13,13 +13,13 @@ PROPERTY = "C16"
 LEVEL = "exploration"
 RULE = ("arrays with nc in 1..400 whose samples are placed just below / at / just above 0.98*range and just below / just above "
         "the slew limit on k = floor(p*nc)-1..+1 channels, scalar and per-channel ranges, taper widths 1..15, isolated / adjacent / "
-        "edge-touching runs, float64 and float32. Non-trivial: at least one flagged and one unflagged sample and a threshold placed "
+        "edge-touching runs, float64 and float32; recordings of every probe generation and band whose Reader.range_volts is the range handed over. Non-trivial: at least one flagged and one unflagged sample and a threshold placed "
         "within 1 ulp; distinct = distinct (nc, p, k-offset, placement, width, dtype) signature")
 ASSUMPTIONS = ["the slew limit per sample is v_per_sec*fs in data units (the function's own parameterisation); the 'exactly at the slew "
                "limit' case is not asserted (property: exceed; code: >=)",
                "exact-zero of the mute on a flagged sample is asserted to 1e-9 (FFT-based convolution may leave 1e-16)"]
 REQUIRED = {"contract:saturation_post": 300, "flags_compared": 300, "mute_zero_checked": 100, "same_flags_same_mute": 20,
-            "boundary_at_threshold": 50}
+            "boundary_at_threshold": 50, "reader_ranges_checked": 16}
 CASE_TIMEOUT = 120.0
 
 _VIOL = []
@@ -30,6 +30,7 @@ def gen_cases(seed, tier):
     cases = [{"cls": "boundary", "seed": seed * 10000 + i, "n": 12, "_w": 1} for i in range(n)]
     cases += [{"cls": "random", "seed": seed * 10000 + i, "n": 10, "_w": 1} for i in range(n // 2)]
     cases += [{"cls": "mute-shapes", "seed": seed * 10000 + i, "n": 10, "_w": 1} for i in range(n // 2)]
+    cases += [{"cls": "reader-range", "seed": seed * 10000 + i, "n": 4, "_w": 2} for i in range(max(8, n // 20))]
     return cases
 
 
@@ -161,12 +162,73 @@ def build_slew(rng, nc, ns, want, p, lim, dt, off, place):
     return x.astype(dt), 0
 
 
+def reader_range_case(case, V, res, rng):
+    """'their full-scale voltage' as production code obtains it: Reader.range_volts of the recording (AP and LF bands, every probe generation,
+    per-channel gains), handed to saturation together with the reader's own samples; judged against the generator's ranges (aimax / gain)"""
+    import spikeglx
+    from vlib import gen_meta as G
+    from vlib.result import scratch
+    d = scratch()
+    nt = 0
+    for j in range(case["n"]):
+        kind = str(rng.choice(G.KINDS))
+        stream = "lf" if rng.random() < 0.5 else "ap"
+        n = int(rng.choice([16, 40, 64]))
+        ns = int(rng.integers(80, 200))
+        aimax, maxint = ((0.5, 8192), (0.62, 2048), (0.62, 8192), (0.6, 512))[int(rng.integers(0, 4))] if kind.startswith("NP2") else (0.6, 512)
+        p = float(rng.choice([0.2, 0.25, 0.5]))
+        kcrit = kcrit_of(p, n)
+        raw = rng.integers(-int(0.3 * maxint), int(0.3 * maxint) + 1, (ns, n + 1)).astype(np.int16)
+        want = np.zeros(ns, bool)
+        times = rng.choice(np.arange(5, ns - 5, 9), int(rng.integers(2, 8)), replace=False)
+        for t in times:
+            level, k = [(0.995, kcrit + 1), (0.995, kcrit), (0.9, n), (0.6, n), (0.97, n)][int(rng.integers(0, 5))]
+            ch = rng.choice(n, k, replace=False)
+            raw[t, ch] = (int(np.ceil(level * maxint)) if level > 0.98 else int(np.floor(level * maxint))) * rng.choice([-1, 1], k)
+            want[t] = level > 0.98 and k > kcrit
+        rec = G.make(rng, kind=kind, stream=stream, sites=G.draw_sites(rng, kind, n, "dense"), gains=G.random_gains(rng), ns=ns, aimax=aimax, maxint=maxint, raw=raw)
+        b = G.write(rec, d / f"r{j}")
+        true_range = rec.s2v[:n] * maxint
+        label = f"{kind}/{stream} n={n} {aimax}/{maxint} p={p}"
+        try:
+            sr = spikeglx.Reader(b, sort=False)
+            rv = np.asarray(sr.range_volts[:n], float)
+            res.check(np.allclose(rv, true_range, rtol=1e-6, atol=0), "saturation:reader-range", f"{label}: Reader.range_volts {rv[:3]} but full scale is aimax / gain = {true_range[:3]}",
+                      counter="reader_ranges_checked")
+            data = sr[:, :n].T
+            flags, mute = V.saturation(data, max_voltage=sr.range_volts[:n], v_per_sec=1e9, fs=sr.fs, proportion=p)
+            ref = reference_flags(data, true_range, 1e9, sr.fs, p)
+            res.check(np.array_equal(ref, want), "harness:reader-range-construction", f"{label}: construction and reference disagree")
+            res.check(np.array_equal(np.asarray(flags, bool), ref), "saturation:flags:reader-range",
+                      f"{label}: with the recording's own range_volts, flagged {np.flatnonzero(flags)[:8].tolist()} but more than {p:.0%} of channels exceed 98 % of THEIR "
+                      f"full scale only at {np.flatnonzero(ref)[:8].tolist()}")
+            res.check(np.all(np.abs(mute[ref]) <= 1e-9), "mute:nonzero-on-flag", f"{label}: mute not zero on flagged samples")
+            sr.close()
+            nt += 1
+        except Exception as e:
+            res.exception("saturation:reader-range:exception", e, label)
+    return nt
+
+
 def run_case(case):
     V = _install()
     res = Result()
     rng = rng_for(case)
     nt = 0
     sigs = set()
+    if case["cls"] == "reader-range":
+        nt = reader_range_case(case, V, res, rng)
+        for key, msg in _VIOL:
+            res.violation(key, msg)
+        _VIOL.clear()
+        M.drain_counts(res, prefix="contract:")
+        for k in ("flags_compared", "mute_zero_checked"):
+            if "contract:" + k in res.observed:
+                res.observed[k] = res.observed.pop("contract:" + k)
+        res.sig = f"reader-range-{case['seed']}"
+        res.nontrivial = nt > 0
+        res.nt = nt
+        return res
     for _ in range(case["n"]):
         cls = case["cls"]
         dt = np.float64 if rng.random() < 0.7 else np.float32
